@@ -36,7 +36,7 @@ def gen_block(rng):
     for _ in range(rng.randint(1, 7)):
         r = rng.random()
         if r < 0.30:
-            lit = rng.choice(["'a#b'", '"q\'q"', "'x\\\\n'", '"tab\\there"', "'%s' % 'fmt'", "'plain'", "'#'", '"\\""', "'a' 'b'"])
+            lit = rng.choice(["'a#b'", '"q\'q"', "'x\\\\n'", '"tab\\there"', "'%s' % 'fmt'", "'plain'", "'#'", '"\\""', "'a' 'b'", "'real\ttab'", '"two\t\ttabs \tand spaces"'])
             lines.append("%s = %s" % (var(), lit))
         elif r < 0.45:
             q = rng.choice(['"""', "'''"])
@@ -592,6 +592,18 @@ def run(ctx):
                 ctx.violation({"signature": sig, "written_in": place, "generated_parameters": repr(have), "python_parameters": repr(want)},
                               "a re-emitted signature gives a parameter another default or another kind than the signature as written", tags=["c19.signature"])
                 break
+    # positional-only parameters keep their place (the marker itself is not kept, like the bare *); infinite float defaults
+    for src, want, tag in [('<%def name="f(a, /, b=2)">${a}-${b}</%def>${f(1)}|${f(1, 3)}', "1-2|1-3", "positional-only"),
+                           ('<%def name="f(a, b=3, /, c=4, *d)">${a}${b}${c}${d}</%def>${f(1)}|${f(1, 2, 5, 6)}', "134()|125(6,)", "positional-only"),
+                           ('<%def name="f(a=1e999, b=-1e999)">${a}|${b}</%def>${f()}', "inf|-inf", "infinite-default"),
+                           ('<%page args="lim=1e999"/>${lim > 10 ** 300}', "True", "infinite-default")]:
+        ctx.evaluations += 1
+        try:
+            out = Template(src).render()
+        except Exception as e:  # noqa
+            out = "raised %s: %s" % (type(e).__name__, str(e)[:80])
+        if out != want:
+            ctx.violation({"template": src, "rendered": out, "expected": want}, "a re-emitted signature binds its arguments differently from the signature as written", tags=["c19.signature." + tag])
     ctx.generators["signatures"] = {"cases": nsig, "shapes": len(sig_kinds)}
 
     # ---- (b) scope -------------------------------------------------------------------------------
@@ -643,15 +655,36 @@ def run(ctx):
     # strict_undefined: genuinely missing names only
     for src, ctxnames, tag in [("<% f = lambda x, *a: (x, a) %>ok", {}, "c19.scope.spurious.star"), ("<% f = lambda x, *, k=1: k %>ok", {}, "c19.scope.spurious.kwonly"),
                                ("<% g = [q for q in [1]] %>ok", {}, "c19.scope.spurious.comp"), ("<%\n def h(p, *r, **s):\n  t = p\n  return (t, r, s)\n%>ok", {}, "c19.scope.spurious.def"),
-                               ("<% f = lambda x=y: x %>${f()}", {"y": 5}, "c19.scope.missing.default")]:
+                               ("<% f = lambda x=y: x %>${f()}", {"y": 5}, "c19.scope.missing.default"),
+                               # comprehension variables in the expression positions whose "declared" names are not subtracted
+                               ('<%def name="f(v=[x for x in [4]])">${v}</%def>${f()}ok', {}, "c19.scope.spurious.comp-in-signature"),
+                               ('<%def name="f(v)">${v}</%def><%self:f v="${[x for x in [1]]}"/>ok', {}, "c19.scope.spurious.comp-in-call-attribute"),
+                               ('${[x for x in [1]]}${sum(y for y in [1, 2])}${ {k: w for k, w in [(1, 2)]} }ok', {}, "c19.scope.spurious.comp-in-expression"),
+                               ("% for i in [x for x in [3]]:\n${i}\n% endfor\nok", {}, "c19.scope.spurious.comp-in-control-line"),
+                               ("${'a' | fil([x for x in [5]])}ok", {"fil": lambda l: (lambda s_: s_)}, "c19.scope.spurious.comp-in-filter-argument"),
+                               ('<%text filter="fil([x for x in [5]])">t</%text>ok', {"fil": lambda l: (lambda s_: s_)}, "c19.scope.spurious.comp-in-filter-argument"),
+                               ('<%page args="pv=[x for x in [6]]"/>${pv}ok', {}, "c19.scope.spurious.comp-in-signature")]:
         ctx.evaluations += 1
         try:
             out = Template(src, strict_undefined=True).render(**ctxnames)
-            ok = out.endswith("ok") or out == "5"
+            ok = out.rstrip().endswith("ok") or out == "5"
         except NameError as e:
             ok, out = False, "NameError: %s" % e
         if not ok:
             ctx.violation({"template": src, "context": sorted(ctxnames), "result": out}, "strict_undefined raised although no name is genuinely missing (or a needed name was not fetched)", tags=[tag])
+
+    # the same in a tag attribute that takes an expression (file= of include / namespace / inherit)
+    ctx.evaluations += 1
+    from mako.lookup import TemplateLookup as _TL
+    lk_ = _TL(strict_undefined=True)
+    lk_.put_string("a", "A")
+    lk_.put_string("m", '<%include file="${[x for x in [\'a\']][0]}"/>ok')
+    try:
+        out = lk_.get_template("m").render()
+    except NameError as e:
+        out = "NameError: %s" % e
+    if out != "Aok":
+        ctx.violation({"template": lk_.get_template("m").source, "result": out}, "strict_undefined raised although no name is genuinely missing", tags=["c19.scope.spurious.comp-in-tag-attribute"])
 
     # ---- (a) expressions ---------------------------------------------------------------------------
     ne = 4000 if tier == "quick" else 500000
